@@ -145,7 +145,7 @@ def main(argv=None):
             gen_c = os.path.join(wd, out_name)
             open(gen_c, 'w').write(g.text)
             rec['extractions'] = g.extractions
-            solver = meta.get('solver', args.solver)
+            solver = variant.get('solver', meta.get('solver', args.solver))
             r = R.run_variant(meta, variant, gen_c, wd, PRELUDE, solver=solver)
             rec.update(r)
             if args.tier == 'thorough' and meta.get('crosscheck', True) and meta.get('tier') == 'quick':
